@@ -107,6 +107,19 @@ def _fit_pml(shape, faces, min_interior):
                 thick["thickness"] -= 1
 
 
+def _open_interior(shape, faces):
+    """Per-axis cell range clear of PML layers and of the one-cell PEC/PMC wall layers (a dipole inside a wall cell is
+    clamped by the wall and radiates nothing)."""
+    out = []
+    for ax, (lo, hi) in enumerate(scenes.interior_range(shape, faces)):
+        if faces[f"min_{'xyz'[ax]}"]["kind"] in ("pec", "pmc"):
+            lo += 1
+        if faces[f"max_{'xyz'[ax]}"]["kind"] in ("pec", "pmc"):
+            hi -= 1
+        out.append((lo, hi))
+    return out
+
+
 def _fix_poynting_axis(d):
     """A flux plane with a second size-1 axis has no determinable normal (fdtdx then leaves the detector half
     initialised): name the normal explicitly, which is what a user has to do for such a region."""
@@ -129,7 +142,8 @@ def case_strategy(draw, ctx):
     t_common = 6 * draw(st.integers(0, (steps - 1) // 6))  # a step (multiple of every interval) at which most sources are on
     sources = []
     for i in range(n_src):
-        s = draw(scenes.source_strategy(shape, steps, faces, name=f"src{i}", switches=False, interior=interior))
+        s = draw(scenes.source_strategy(shape, steps, faces, name=f"src{i}", switches=False,
+                                        interior=_open_interior(shape, faces)))
         s["amp"] = draw(st.sampled_from([1.0, 0.5, 2.0, -1.5, 0.3, -0.7]))
         overlap = draw(st.integers(0, 7)) > 0
         s["switch"] = _window(draw, steps, must_cover=t_common if overlap else None)
